@@ -832,6 +832,14 @@ def _work_sched(unit):
     res = Result()
     _restore()
     parsed = impl.asn1tools.parse_string(unit.spec)
+    try:
+        _compile(parsed, unit.codec)
+    except Exception as e:
+        # this codec's compiler refuses the harness module (e.g. PER and a SET with untagged components):
+        # a compile-time limitation is other properties' subject, C18 needs a compiled specification
+        res.count('sched_harnesses_not_compilable')
+        res.outcome('harness-not-compilable:%s:%s' % (unit.codec, type(e).__name__))
+        return res
     programs = _resolve_programs(unit, parsed)
     r = 'module-state-moved' if SNAP.moved() else _explore_schedules(unit, res, parsed, programs, False)
     if r == 'module-state-moved':
